@@ -392,7 +392,9 @@ theorem tryUnbond_money {s s1 : St} {q q1 : Seq} {amt : Nat} (e : tryUnbond s q 
               · cases h0
               · split at h0
                 · cases h0
-                · injection h0 with h0; injection h0 with e1 _; subst e1; exact ⟨rfl, rfl⟩
+                · split at h0
+                  · cases h0
+                  · injection h0 with h0; injection h0 with e1 _; subst e1; exact ⟨rfl, rfl⟩
             injection e with e; injection e with e1 e2; subst e1; subst e2
             have ht : (if q0.tokens = 0 then { q0 with bonded := false } else q0).tokens = q0.tokens := by split <;> rfl
             have ha : (if q0.tokens = 0 then { q0 with bonded := false } else q0).addr = q0.addr := by split <;> rfl
@@ -506,7 +508,9 @@ theorem slash_money {s s1 : St} {q q1 : Seq} {amt : Nat} {mul : Dec} {rw : Optio
           · cases h0
           · split at h0
             · cases h0
-            · injection h0 with h0; injection h0 with e1 _; subst e1; exact ⟨rfl, rfl⟩
+            · split at h0
+              · cases h0
+              · injection h0 with h0; injection h0 with e1 _; subst e1; exact ⟨rfl, rfl⟩
         refine ⟨((mul.mulInt amt).truncateInt).toNat, Or.inr rfl, hb.1.trans sp.1, hb.2.2.2.trans sp.2.2.2, ?_, ?_, ?_, ?_⟩
         · have := hb.2.2.1; have := sp.2.2.1; omega
         · have := hb.2.1; have := sp.2.1; omega
